@@ -43,13 +43,14 @@ def atoms_for(ck):
     for n in (1, 2):
         for t in itertools.product(range(256), repeat=n):
             out.append(bytes(t))
+    alpha = [0x00, 0x01, 0x7f, 0x80, 0xff, 0x22, 0x27, 0x5c, 0x20, 0x28, 0x29, 0x23, 0x3b, 0x2e, 0x30, 0x39, 0x78, 0x41, 0x61, 0x7e, 0x1f, 0x09, 0x0a, 0x0c, 0x0d, 0x0b, 0xfe]
+    for t in itertools.product(alpha, repeat=3):
+        out.append(bytes(t))
     if ck.tier == "thorough":
-        for t in itertools.product(range(256), repeat=3):
-            out.append(bytes(t))
-    else:
-        alpha = [0x00, 0x01, 0x7f, 0x80, 0xff, 0x22, 0x27, 0x5c, 0x20, 0x28, 0x29, 0x23, 0x3b, 0x2e, 0x30, 0x39, 0x78, 0x41, 0x61, 0x7e, 0x1f, 0x09, 0x0a, 0x0c, 0x0d, 0x0b, 0xfe]
-        for t in itertools.product(alpha, repeat=3):
-            out.append(bytes(t))
+        # every 3-byte atom whose first byte is a boundary byte (all 2^24 of them would take hours)
+        for first in (0x00, 0x01, 0x7f, 0x80, 0xfe, 0xff):
+            for t in itertools.product(range(256), repeat=2):
+                out.append(bytes((first,) + t))
     longer = []
     for _ in range(400):
         k = rng.choice(["zero", "sign", "print", "quote", "hash", "rand"])
@@ -188,7 +189,7 @@ def run(ck):
             direct.append({"clause": "equal values feed different bytes to Hash", "a": a[:200], "b": b[:200], "hash_a": hs[a][:120], "hash_b": hs[b][:120]})
     ck.cov["evaluations"] = len(lines) + len(lines2) + len(l3)
     ck.cov["distinct_nontrivial"] = len(set(vals)) + len(set(pairs))
-    ck.cov["rule"] = ("atoms: every byte string of length 0..2 (0..3 thorough) + 27-symbol alphabet^3 + random zero-prefixed/sign-extended/printable/quote/backslash/32-byte/multi-KiB; "
+    ck.cov["rule"] = ("atoms: every byte string of length 0..2 (thorough: also every 3-byte string led by 00 01 7f 80 fe ff) + 27-symbol alphabet^3 + random zero-prefixed/sign-extended/printable/quote/backslash/32-byte/multi-KiB; "
                       "trees over them; both integer modes for conversion and hashes; equality/Hash: all pairs of leaf spellings (Atom, three quote kinds, Integer, Nil) of 67 atoms + random tree pairs, fixed mode")
     ck.cov["samples"] = [lines[300], lines2[5], l3[-1], l3[len(uniq) * 2 + 77]]
     ck.cov["atoms"] = len(all_atoms)
